@@ -161,7 +161,7 @@ URL_RX = [re.compile(r"(https?://\S*\.\S*)"), re.compile(r"(www.\S*\.\S*)")]
 URL_BAD = set("%&~{}$\\#^")
 
 
-def in_domain(text, keep_math):
+def in_domain(text, keep_math, literal_dollars=None):
     """R3: the alphabet of the statement and the sequences it excludes; plus two ambiguities that are not claims of the
     statement: a literal '$' next to math spans, and a backslash directly before '$'."""
     # a math span: from an unescaped '$' to the next unescaped '$' (an escaped '\$' may occur inside)
@@ -171,6 +171,8 @@ def in_domain(text, keep_math):
     if "\\$" in plain:
         return False
     nd = len(re.findall(r"(?<!\\)\$", text))
+    if literal_dollars is not None and literal_dollars > 0 and nd > 1 and keep_math:
+        return False      # a literal '$' together with any other '$' is read as (part of) a math span: ambiguous
     if nd % 2 == 1 and nd > 1:
         return False
     if not keep_math and nd:          # without keep_math a math span is plain text containing '^' etc.
@@ -278,11 +280,13 @@ def run(chk: core.Check):
     nrt = skipped = 0
     for e in rt.json_lines():
         for v in range(2):
-            text = ""
+            text, lit = "", 0
             for c, j in e["t"]:
-                text += ("" if not text else (" " if j == "sp" else "")) + (SYMS[c][0] if v == 0 else rnd.choice(SYMS[c]))
+                sym = SYMS[c][0] if v == 0 else rnd.choice(SYMS[c])
+                lit += 1 if (c == "TEX" and sym == "$") else 0
+                text += ("" if not text else (" " if j == "sp" else "")) + sym
             for eo in eopts:
-                if not in_domain(text, eo.get("keep_math", True)):
+                if not in_domain(text, eo.get("keep_math", True), lit):
                     skipped += 1
                     continue
                 nrt += 1
@@ -290,9 +294,11 @@ def run(chk: core.Check):
     allsyms = [s for c in SYMS for s in SYMS[c]]
     for _ in range(nrand):
         k = rnd.randint(1, 12)
-        text = " ".join(rnd.choice(allsyms) if rnd.random() < 0.7 else "".join(rnd.choice(allsyms[:40]) for _ in range(rnd.randint(1, 4))) for _ in range(k))
+        parts = [rnd.choice(allsyms) if rnd.random() < 0.7 else "".join(rnd.choice(allsyms[:40]) for _ in range(rnd.randint(1, 4))) for _ in range(k)]
+        text = " ".join(parts)
+        lit = sum(1 for x in parts if x == "$")
         eo = rnd.choice(eopts)
-        if not in_domain(text, eo.get("keep_math", True)):
+        if not in_domain(text, eo.get("keep_math", True), lit):
             skipped += 1
             continue
         nrt += 1
@@ -303,7 +309,7 @@ def run(chk: core.Check):
     chk.extra["round_trip_texts_outside_the_stated_alphabet_skipped"] = skipped
     chk.extra["clause_iii_level"] = "exploration (contract on the third-party converter, checked by conformance only)"
     chk.assumptions += ["alphabet of the statement; excluded: '--', two back-ticks, two apostrophes, '!`', '?`', '^', '\"' (outside math), "
-                        "a literal '$' next to a math span, a backslash directly before '$'",
+                        "a literal '$' together with any other '$' (it would be read as a math span), a backslash directly before '$'",
                         "a failing conversion yields a MiddlewareErrorBlock whose ignore_error_block is the entry (values that "
                         "converted may already be converted)", "the decoder is the default one for the round trip"]
 
